@@ -362,7 +362,7 @@ fn strategy() -> BoxedStrategy<Case> {
     prop_oneof![5 => matrix, 1 => int_matrix, 4 => sets].boxed()
 }
 
-const NT_BIG: u32 = 700;
+const NT_BIG: u32 = 4200;
 
 thread_local! {
     static FLAT_BIG: Ontology = {
@@ -394,8 +394,8 @@ impl Similarity for HashSim {
     }
 }
 
-/// Sets of more than 128 / 255 members (sums over long vectors of maxima): `na` x `nb` terms of a flat
-/// 700-term ontology, an asymmetric similarity that is a function of the ids.
+/// Sets of more than 128 / 255 / 1024 / 4096 members (sums over long vectors of maxima): `na` x `nb` terms of a flat
+/// 4200-term ontology, an asymmetric similarity that is a function of the ids.
 pub fn check_big_sets(na: u32, nb: u32, seed: u64, stats: &mut Stats) -> CheckResult {
     ensure!(na < NT_BIG && nb < NT_BIG, "harness/bad-case", "set too large for the fixture");
     let ia: Vec<u32> = (0..na).map(|i| 2 + (i * 3 + (seed % 3) as u32) % (NT_BIG - 1)).collect::<std::collections::BTreeSet<u32>>().into_iter().collect();
@@ -434,6 +434,9 @@ pub fn check_big_sets(na: u32, nb: u32, seed: u64, stats: &mut Stats) -> CheckRe
     if ia.len().max(ib.len()) > 255 {
         stats.label("sets:more-than-255-members");
     }
+    if ia.len().max(ib.len()) > 1024 && ia.len() != ib.len() {
+        stats.label("sets:more-than-1024-members-unequal-sizes");
+    }
     Ok(())
 }
 
@@ -442,7 +445,7 @@ impl Property for C05 {
         "C05"
     }
     fn rule(&self) -> String {
-        "Generated: (a) raw r x c matrices, r,c in 0..=8 plus 1x40 and 40x1, f32 entries (finite, occasionally +infinity) drawn from few values per matrix (ties among maxima), one case in six scaled by 10^e, e in -36..=33 (compared after dividing by the scale), through StandardCombiner::{FunSimAvg,FunSimMax,Bma}::calculate; integer matrices for rows()/cols()/dim()/len() against index arithmetic; (b) on a flat 40-term ontology: sequences of 1-6 pairs of term sets (sizes 0..=8, occasionally 31-40 members) and a user-supplied Similarity that looks pairs up in a generated 40x40 table (asymmetric or symmetrised), through GroupSimilarity::calculate and HpoSet::similarity; (c) the same sequence through one CachedSimilarity per combiner (second visit, transposed pair), every set also compared with itself as the same object on both sides, and term-level (a,b),(b,a),(a,b). Oracle: the three definitions evaluated in f64 on M[i][j] = T[A_i][B_j] (ascending ids), tolerance 1e-4; 0 for an empty side; argument-order independence for symmetric tables (1e-6); cached results bit-identical to uncached. evaluations = combiner evaluations. Non-trivial = non-square non-empty matrix whose row-max mean differs from its column-max mean, or a set pair of unequal non-zero sizes; distinct by hash of the case.".into()
+        "Generated: (a) raw r x c matrices, r,c in 0..=8 plus 1x40 and 40x1, f32 entries (finite, occasionally +infinity) drawn from few values per matrix (ties among maxima), one case in six scaled by 10^e, e in -36..=33 (compared after dividing by the scale), through StandardCombiner::{FunSimAvg,FunSimMax,Bma}::calculate; integer matrices for rows()/cols()/dim()/len() against index arithmetic; (b) on a flat 40-term ontology: sequences of 1-6 pairs of term sets (sizes 0..=8, occasionally 31-40 members) and a user-supplied Similarity that looks pairs up in a generated 40x40 table (asymmetric or symmetrised), through GroupSimilarity::calculate and HpoSet::similarity; (c) the same sequence through one CachedSimilarity per combiner (second visit, transposed pair), every set also compared with itself as the same object on both sides, and term-level (a,b),(b,a),(a,b); (d) fixed-size sweeps on a flat 4200-term ontology with an asymmetric similarity that is a function of the two ids: both sets long, or one long set against a short one in both orders, with sizes across 128 / 256 / 1024 / 2048 / 4096 (quick up to 4097 x 1, thorough up to 2050 x 1500). Oracle: the three definitions evaluated in f64 on M[i][j] = T[A_i][B_j] (ascending ids), tolerance 1e-4; 0 for an empty side; argument-order independence for symmetric tables (1e-6); cached results bit-identical to uncached. evaluations = combiner evaluations. Non-trivial = non-square non-empty matrix whose row-max mean differs from its column-max mean, or a set pair of unequal non-zero sizes; distinct by hash of the case.".into()
     }
     fn assumptions(&self) -> Vec<String> {
         vec!["term similarities are finite or +infinity (NaN and -infinity are outside the domain: maxima are taken with '>' and inf - inf has no value)".into(), "f32 sums compared with f64 reference within 1e-4 relative".into()]
@@ -454,7 +457,7 @@ impl Property for C05 {
         }
     }
     fn required_labels(&self, _tier: Tier) -> Vec<&'static str> {
-        vec!["nontrivial", "matrix:rect-row!=col-means", "matrix:empty", "matrix:1x40", "int-matrix", "sets:unequal-sizes", "sets:empty", "sets:more-than-30-members", "sets:symmetric-table", "sets:asymmetric-table", "sets:cache-reused-over-several-pairs", "sets:same-object-asymmetric-table", "magnitude:huge", "magnitude:tiny", "sets:more-than-128-members", "sets:more-than-255-members", "infinite-score"]
+        vec!["nontrivial", "matrix:rect-row!=col-means", "matrix:empty", "matrix:1x40", "int-matrix", "sets:unequal-sizes", "sets:empty", "sets:more-than-30-members", "sets:symmetric-table", "sets:asymmetric-table", "sets:cache-reused-over-several-pairs", "sets:same-object-asymmetric-table", "magnitude:huge", "magnitude:tiny", "sets:more-than-128-members", "sets:more-than-255-members", "sets:more-than-1024-members-unequal-sizes", "infinite-score"]
     }
     fn run_generated(&self, _tier: Tier, seed: u64, n: u64, stats: &mut Stats) -> Option<(Value, Failure)> {
         run_typed(strategy(), seed, n, stats, check)
@@ -468,9 +471,10 @@ impl Property for C05 {
         replay_typed::<Case, _>(case, stats, check)
     }
     fn extra(&self, tier: Tier, seed: u64, stats: &mut Stats) -> Vec<(Value, Failure)> {
-        let mut sizes = vec![(129u32, 4u32), (128, 128), (4, 130), (200, 150), (257, 1), (300, 256), (64, 65)];
+        // both operands long, and one long operand against a short one in both orders, across 128 / 256 / 1024 / 2048 / 4096
+        let mut sizes = vec![(129u32, 4u32), (128, 128), (4, 130), (200, 150), (257, 1), (300, 256), (64, 65), (3, 1025), (1025, 3), (1024, 1025), (2, 2049), (2049, 2), (4097, 1), (1, 4097)];
         if tier == Tier::Thorough {
-            sizes.extend([(699, 513), (1, 699), (255, 255), (512, 129)]);
+            sizes.extend([(699, 513), (1, 699), (255, 255), (512, 129), (1100, 1030), (2050, 1500), (4100, 600), (600, 4100), (1025, 1025)]);
         }
         let mut out = Vec::new();
         for (a, b) in sizes {
